@@ -35,6 +35,10 @@ var c08Shapes = []interface{}{
 	M{},
 	M{"m": M{"deep": []interface{}{1.0, M{"x": nil}}}, "error": "not an error", "actionError": 1.0},
 	true,
+	// addressed to the host's own service machines (nothing they act upon): still just an emitted message
+	M{"to": "captain", "note": "not an operation"},
+	M{"to": "timers", "note": "not a request"},
+	M{"to": []interface{}{"captain", "nobody"}, "m": 2.0},
 }
 
 // shaped returns the program with every "emit m2" emitting the shape instead.
@@ -314,7 +318,7 @@ func C08(c *vh.Ctx) {
 	if c.Shard == 0 {
 		c.Count("programs", int64(len(progs)))
 	}
-	c.Rule("every ECMAScript program = prefix over {emit m1, emit m2, set} (for programs of up to 3 operations m2 also ranges over 10 message shapes: maps with an emit / to / error key, strings, numbers, arrays, empty and nested maps, booleans) (any order, up to the bound) optionally ended by one of {throw a string, throw an object with properties, throw an Error, throw null, return scalar, return array, loop until cancelled (cancel delivered at tick 3 through the harness context), emit an unserialisable value, return null}; placed as the action at position 1, 2 or 3 of a chain of three emitting actions, or as the guard between them; error routing none / ActionErrorNode / ActionErrorBranches (the handler emits and resumes the chain); observed through Spec.Walk (per-stride Emitted and DoEmitted) and through sio.Crew.ProcessMsg (Result.Emitted); oracle: emitted == concatenation of the emits of the successfully completed actions in execution order. Plus long cascades through a crew (3 to 130 walks, one or two emissions per walk, next to a machine that emits and then fails): Result.Emitted must be, batch by batch, what each walk emitted. non-trivial = program emits and then fails.")
+	c.Rule("every ECMAScript program = prefix over {emit m1, emit m2, set} (for programs of up to 3 operations m2 also ranges over 13 message shapes: maps with an emit / to / error key, messages addressed to the host's captain and timers machines, strings, numbers, arrays, empty and nested maps, booleans) (any order, up to the bound) optionally ended by one of {throw a string, throw an object with properties, throw an Error, throw null, return scalar, return array, loop until cancelled (cancel delivered at tick 3 through the harness context), emit an unserialisable value, return null}; placed as the action at position 1, 2 or 3 of a chain of three emitting actions, or as the guard between them; error routing none / ActionErrorNode / ActionErrorBranches (the handler emits and resumes the chain); observed through Spec.Walk (per-stride Emitted and DoEmitted) and through sio.Crew.ProcessMsg (Result.Emitted); oracle: emitted == concatenation of the emits of the successfully completed actions in execution order. Plus long cascades through a crew (3 to 130 walks, one or two emissions per walk, next to a machine that emits and then fails): Result.Emitted must be, batch by batch, what each walk emitted. non-trivial = program emits and then fails.")
 	var idx uint64
 	for _, p := range progs {
 		for pos := 0; pos <= 3; pos++ {
